@@ -980,6 +980,7 @@ def _run(ck: Ck) -> None:
         ck.explain('correspondence:')
         ck.explain('build:')
         ck.explain('translate:')
+        ck.explain('tie:')
 
 
 def replay(data: dict) -> int:
